@@ -947,7 +947,7 @@ func main() {
 	races := map[string]string{}
 	mon.Parallel(len(batches), 8, func(i int) {
 		b := batches[i]
-		spec := mon.ChildSpec{Label: fmt.Sprintf("%s-%d", b.part, b.from), Args: []string{b.part, strconv.Itoa(b.from), strconv.Itoa(b.to)}, Timeout: 4 * time.Minute}
+		spec := mon.ChildSpec{Label: fmt.Sprintf("%s-%d", b.part, b.from), Args: []string{b.part, strconv.Itoa(b.from), strconv.Itoa(b.to)}, Timeout: time.Duration(r.Pick(4, 25)) * time.Minute}
 		var logBase string
 		if b.race {
 			if raceBin == "" {
